@@ -97,6 +97,15 @@ where
             let mut rng = ctx.rng(&format!("c05-inputs-{name}"));
             let inputs = cat_field::gen_inputs(&e, idx, bud.n_boundary, bud.n_random, bud.max_specials, &mut rng);
             let opts = &bud.opts;
+            {
+                let classes = fe_classes::<K>();
+                for i in &inputs {
+                    for v in &i.fe {
+                        let label = classes.iter().find(|(_, c)| c == v).map(|(l, _)| l.as_str()).unwrap_or("random/special");
+                        rep.count(&format!("operand_class[{label}]"));
+                    }
+                }
+            }
             if e.prog.nonunique {
                 probes::check_nonunique(&e.prog, &inputs, opts.max_bit_len, rep);
                 rep.count_n(&format!("class.{}.entries", K::TAG), 1);
